@@ -112,13 +112,13 @@ def check_drawing(scfg, source, renderer, bcmap=None):
     return deep
 
 
-STAGES = ("none", "closed", "loop", "branch")
+STAGES = ("none", "declared", "closed", "loop", "branch")
 
 
 def _build(g, stage, payload):
     """-> scfg or None when a stage driver of the library raised (C02's business)"""
-    scfg = M.mk_scfg(g, payload)
-    if stage != "none":
+    scfg = M.mk_scfg(g, payload, declare=stage == "declared")
+    if stage not in ("none", "declared"):
         try:
             M.apply_stage(scfg, stage)
         except Exception as e:
@@ -155,6 +155,8 @@ def _eval(col, intg, g, origin):
 def _eval_byteflow(col, label, code):
     nt = False
     for stage in STAGES:
+        if stage == "declared":
+            continue
         try:
             flow = ByteFlow.from_bytecode(code)
             if stage != "none":
